@@ -330,7 +330,7 @@ class Evolver:
             # productions that once exposed a defect (kept as a standing floor)
             "message-no-typename", "rust-keyword-name", "base-regexp", "empty-struct-property", "request-no-typename",
             "matrix", "same-name-different-nullness", "shared-registration-method", "diamond",
-            "message-regopts-no-params", "explicit-closed-enum", "and-registration-options", "deep-mixin", "confusing-message-names", "exotic-enum-values", "message-map-keys", "marked-everything", "alias-shapes", "declares-response-error", "method-mentions-request", "literal-name-collision"]
+            "message-regopts-no-params", "explicit-closed-enum", "and-registration-options", "deep-mixin", "confusing-message-names", "exotic-enum-values", "message-map-keys", "marked-everything", "alias-shapes", "declares-response-error", "method-mentions-request", "literal-name-collision", "big-declarations"]
     RUST_AND_PYTHON_KEYWORDS = ["in", "for", "as", "if", "else", "while", "continue", "break", "return", "async", "await", "try", "yield"]
 
     MATRIX_PRODUCTIONS = ["base", "ref-struct", "ref-enum", "ref-alias", "array", "map", "tuple", "ornull-first", "ornull-last", "literal",
@@ -480,6 +480,44 @@ class Evolver:
         if focus == "message-regopts-no-params":
             self.e_new_message(is_request=True, registration="own", params=False)
             return self.e_new_message(is_request=False, registration="own", params=False)
+        if focus == "big-declarations":
+            # sizes: a structure with many properties, an enumeration with many values, a long extends chain
+            name = self.fresh_type_name("VfWide")
+            local: set = set()
+            props = []
+            for i in range(90):
+                props.append({"name": f"vfWide{WORDS_U[i % 10]}{WORDS_U[(i // 10) % 10]}", "type": {"kind": "base", "name": ["string", "uinteger", "boolean", "integer"][i % 4]}})
+                if i % 2:
+                    props[-1]["optional"] = True
+            self.doc["structures"].append({"name": name, "properties": props})
+            ename = self.fresh_type_name("VeWide")
+            self.doc["enumerations"].append({"name": ename, "type": {"kind": "base", "name": "uinteger"},
+                                             "values": [{"name": f"V{i}", "value": i * 7} for i in range(400)]})
+            self.new_enums.append(ename)
+            self.closed_enums.append(ename)
+            # (the chain hangs off a small structure: the dotnet plugin copies every inherited property once per level)
+            root_small = self.fresh_type_name("VfChainRoot")
+            self.doc["structures"].append({"name": root_small, "properties": [{"name": "vfRootWord", "type": {"kind": "base", "name": "string"}}]})
+            wide_child = self.fresh_type_name("VfWideChild")
+            self.doc["structures"].append({"name": wide_child, "extends": [{"kind": "reference", "name": name}],
+                                           "properties": [{"name": "vfOwnKind", "type": {"kind": "reference", "name": ename}}]})
+            self.new_structs += [name, wide_child]
+            chain = [root_small]
+            for i in range(10):
+                child = self.fresh_type_name("VfChain")
+                self.doc["structures"].append({"name": child, "extends": [{"kind": "reference", "name": chain[-1]}],
+                                               "properties": [{"name": f"vfLevel{WORDS_U[i]}", "type": {"kind": "reference", "name": ename}, "optional": bool(i % 2)}]})
+                chain.append(child)
+            self.new_structs += chain
+            self.counter += 1
+            self.doc["notifications"].append({"method": f"vf/wide{self.counter}", "messageDirection": "both", "params": {"kind": "reference", "name": chain[-1]}})
+            self.edits.append({"edit": "E1-new-structure", "name": name, "properties": [p["name"] for p in props][:5]})
+            self.edits.append({"edit": "E1-new-structure", "name": wide_child, "properties": ["vfOwnKind"]})
+            self.edits.append({"edit": "E3-new-enum", "name": ename, "base": "uinteger", "values": [0, 7, 14]})
+            for c in chain[1:]:
+                self.edits.append({"edit": "E1-new-structure", "name": c, "properties": []})
+            self.edits.append({"edit": "E6-new-message", "method": f"vf/wide{self.counter}", "request": False})
+            return
         if focus == "literal-name-collision":
             # owner and property names concatenate to the same words: VfAb.cdEf / VfAbCd.ef (plain, array element, union member)
             def lit(pname: str, base_: str) -> dict:
